@@ -371,6 +371,8 @@ func runC19(c *core.Ctx) {
 		c.Floor("ErrSegmentFull returns", n, 1)
 	})
 
+	c.Clause("D11", func() { runSharedBatchNotMutated(c) })
+
 	runC19rest(c)
 }
 
